@@ -12,7 +12,10 @@ Oracles (all independent of the codec implementation: round trip, exception clas
        decodes to the same scene;
  (iv)  every proper prefix of a scene encoding raises SerializationError; for replays: inside
        the header and strictly inside a value's encoding;
- (v)   single-byte substitutions at every offset (integers and the sign/exponent bytes of
+ (v)   [replays: judged only while *decoding* -- an exception raised by a later computation
+       on a successfully decoded value (float(10**400) in user code ...) is classed
+       `unjudged:replay-decoded-then-later-computation-failed`, see replay_failure_class]
+       single-byte substitutions at every offset (integers and the sign/exponent bytes of
        doubles: 16/8 values in the quick tier, all 255 in the thorough tier; other bytes 2/6)
        either decode or raise SerializationError (replays: additionally the documented
        DivergenceError / rejection);
@@ -406,6 +409,38 @@ def replay_outcome(scenario, blob, dyn, simulator=None, **kw):
         return "other", e
 
 
+DECODING_FRAMES = {"deserializeValue", "replaySampledValue", "readValue", "readSamplable",
+                   "readSample", "readScene", "readReplayHeader", "initializeReplay",
+                   "detectReplayEnd", "atEnd", "sceneFromBytes"}
+INVARIANT_ERRORS = (AssertionError, IndexError, KeyError, TypeError, AttributeError)
+
+
+def replay_failure_class(exc):
+    """Why a replay of corrupted / truncated data raised something unexpected.
+
+    'decoding'  -- a frame of the decoding machinery is on the traceback: the property's
+                   business (must be SerializationError);
+    'invariant' -- no decoding frame, but an internal invariant of Scenic's distribution
+                   machinery (core/distributions.py) broke on the decoded value: the value was
+                   not a legal value of its distribution and decoding let it through;
+    'downstream'-- the data decoded to a legal (if absurd) value and a *later* computation of
+                   the simulation or of user code failed on it (e.g. float(10**400)): not a
+                   decoding failure, not judged."""
+    import traceback
+
+    frames = traceback.extract_tb(exc.__traceback__)
+    for fr in frames:
+        fn = fr.filename.replace("\\", "/")
+        if fr.name in DECODING_FRAMES and "/scenic/core/" in fn:
+            return "decoding"
+        if fn.endswith("/scenic/core/serialization.py"):
+            return "decoding"
+    last = frames[-1].filename.replace("\\", "/") if frames else ""
+    if isinstance(exc, INVARIANT_ERRORS) and last.endswith("/scenic/core/distributions.py"):
+        return "invariant"
+    return "downstream"
+
+
 def check_simulation(out, prog, scenario, scene, case, src, tier):
     from scenic.core.simulators import Simulation
 
@@ -477,7 +512,10 @@ def check_simulation(out, prog, scenario, scene, case, src, tier):
         k, val = replay_outcome(scenario, blob[:L0 + n], dyn)
         cell, strictly = cell_at(spans, n, 6)
         must = n < 6 or strictly
-        if k == "other":
+        if k == "other" and replay_failure_class(val) == "downstream":
+            out.cls("unjudged:replay-decoded-then-later-computation-failed:"
+                    + type(val).__name__)
+        elif k == "other":
             out.fail(f"truncate:replay|{core.exc_signature(val)}", source=src, n=n, cell=cell,
                      error=repr(val)[:300])
         elif must and k != "ser":
@@ -493,10 +531,16 @@ def check_simulation(out, prog, scenario, scene, case, src, tier):
             bad = blob[:L0 + off] + bytes([v]) + blob[L0 + off + 1:]
             seed_all(case["seed"] + 5)
             k, val = replay_outcome(scenario, bad, dyn)
-            if k == "other":
+            if k == "other" and replay_failure_class(val) == "downstream":
+                # the bytes decoded to a legal value of the codec; what failed is a later
+                # computation of the simulation / of user code on that value
+                out.cls("unjudged:replay-decoded-then-later-computation-failed:"
+                        + type(val).__name__)
+            elif k == "other":
                 cell, _ = cell_at(spans, off, 6)
                 out.fail(f"corrupt:replay|{core.exc_signature(val)}", source=src, cell=cell,
-                         offset=off, value=v, error=repr(val)[:300])
+                         offset=off, value=v, kind=replay_failure_class(val),
+                         error=repr(val)[:300])
 
     # (vi) perturbed replay
     check_divergence(out, scenario, scene, sim, blob, dyn, case, src)
@@ -790,7 +834,15 @@ def replay(case):
 
 
 @st.composite
-def cases(draw):
+def cases(draw, tier="quick"):
+    case = draw(_cases())
+    if case.get("kind") == "prog":
+        case["tier"] = tier  # the corruption / truncation plans depend on it: replay needs it
+    return case
+
+
+@st.composite
+def _cases(draw):
     if draw(st.integers(0, 11)) == 0:
         # direct codec values (all of them are also enumerated by shard 0); drawn here too so
         # that the shrinking pass can reach their signatures
@@ -850,7 +902,9 @@ def selfcheck():
 
 
 def plan(tier, seed, jobs):
-    n = 45 if tier == "quick" else 260
+    import os
+
+    n = int(os.environ.get("VERIF_C18_N", 45 if tier == "quick" else 260))
     return [{"seed": seed * 1000 + k, "n": n, "codec": k == 0} for k in range(jobs)]
 
 
@@ -863,7 +917,7 @@ def run_shard(shard, tier):
     import os
 
     shrink_s = float(os.environ.get("VERIF_SHRINK_S", 8 if tier == "quick" else 30))
-    core.hyp_search(cases(), lambda c: judge(c, tier), shard["n"], shard["seed"], col,
+    core.hyp_search(cases(tier), lambda c: judge(c, tier), shard["n"], shard["seed"], col,
                     known_sigs=shard.get("known_sigs", ()), case_timeout=120,
                     shrink_s=shrink_s, shrink=shrink_s > 0)
     return col.result()
